@@ -32,3 +32,17 @@ Lemma alloc_sites_ok :
                   "server/cluster/cluster_worker.go:HandleAskSplit"; "server/cluster/cluster_worker.go:HandleAskBatchSplit"] ->
             In s alloc_sites.
 Proof. intros s H; cbn in H; cbn. repeat destruct H as [<-|H]; tauto. Qed.
+
+(* the handlers that hand ids to TiKV: every id of a split answer comes from Alloc, and an Alloc that fails fails the
+   whole request (no answer with a missing / zero id); AllocID validates the request (leader only) before it allocates *)
+Lemma skel_HandleAskSplit_ok : skel_HandleAskSplit =
+  [Call "ValidRequestRegion"; IfE "err != nil" [Ret] []; Call "Alloc"; Assign "newRegionID" ":= c.id.Alloc()"; IfE "err != nil" [Ret] []; Assign "peerIDs" ":= make([]uint64, len(request.Region.Peers))"; ForE [Call "Alloc"; IfE "err != nil" [Ret] []]; Ret].
+Proof. reflexivity. Qed.
+
+Lemma skel_HandleAskBatchSplit_ok : skel_HandleAskBatchSplit =
+  [Call "ValidRequestRegion"; IfE "err != nil" [Ret] []; ForE [Call "Alloc"; Assign "newRegionID" ":= c.id.Alloc()"; IfE "err != nil" [Ret] []; Assign "peerIDs" ":= make([]uint64, len(request.Region.Peers))"; ForE [Call "Alloc"; IfE "err != nil" [Ret] []]]; Ret].
+Proof. reflexivity. Qed.
+
+Lemma skel_handler_AllocID_ok : skel_handler_AllocID =
+  [IfE "!s.isLocalRequest(forwardedHost)" [IfE "err != nil" [Ret] []; Ret] []; Call "validateRequest"; IfE "err != nil" [Ret] []; Call "Alloc"; IfE "err != nil" [Ret] []; Ret].
+Proof. reflexivity. Qed.
